@@ -19,7 +19,7 @@ def angles_to_x(points, latitude=False):
     x = np.zeros((npoints, 3), dtype=points.dtype)
     phi = np.radians(points[:, 0])
     if latitude:
-        theta = np.radians(90.0 + points[:, 1])
+        theta = np.radians(90.0 - points[:, 1])
     else:
         theta = np.radians(points[:, 1])
     st = np.sin(theta)
